@@ -88,7 +88,7 @@ var denomKinds = []weighted{
 }
 
 var amountKinds = []weighted{
-	{52, "small"}, {8, "one"}, {8, "1e18"}, {4, "2^64"}, {4, "2^128"}, {4, "2^255"}, {1, "2^256-1"}, {3, "2^256"}, {2, "2^300"},
+	{48, "small"}, {8, "one"}, {8, "1e18"}, {4, "2^63..2^64"}, {4, "2^64"}, {4, "2^128"}, {4, "2^255"}, {1, "2^256-1"}, {3, "2^256"}, {2, "2^300"},
 	{4, "zero"}, {3, "negative"}, {2, "empty"}, {2, "alpha"}, {2, "decimal"}, {1, "exp"}, {2, "plus"}, {2, "leading-zeros"}, {1, "space"},
 	{1, "hex"}, {1, "base-prefix"}, {1, "underscore"}, {1, "arabic"}, {1, "long-digits"},
 }
@@ -209,6 +209,12 @@ func (w *world) genSpec(r *rand.Rand, fullStack bool) *spec {
 		s.amt = big.NewInt(1)
 	case "1e18":
 		s.amt = new(big.Int).Mul(big.NewInt(int64(1+r.Intn(9))), new(big.Int).Exp(big.NewInt(10), big.NewInt(18), nil))
+	case "2^63..2^64":
+		// above the signed, within the unsigned 64-bit range (9.2 to 18.4 whole coins at 18 decimals)
+		s.amt = new(big.Int).Add(pow2(63), new(big.Int).SetUint64(r.Uint64()>>1))
+		if r.Intn(3) == 0 {
+			s.amt = new(big.Int).Add(pow2(63), big.NewInt(int64(r.Intn(2))))
+		}
 	case "2^64":
 		s.amt = new(big.Int).Add(pow2(64), big.NewInt(int64(r.Intn(3)-1)))
 	case "2^128":
